@@ -25,7 +25,7 @@ Definition case_t :=
 Definition visible (vc vh vp vg : bool) (e : ev) : bool :=
   match e with
   | EvCallConform => vc | EvHook _ => vh | EvProvided => vp | EvGetConform => vg
-  | EvCustom _ => true
+  | EvCustom _ | EvCustomProv _ => true
   end.
 
 Definition log_eqb := list_eqb ev_eqb.
